@@ -8,6 +8,7 @@
 (*          defined : for each of them, whether the library maps it to     *)
 (*                    this very definition,                                *)
 (*          libnames, libdefined : see SourceNamesDefined,                 *)
+(*          sim2, sim8 : see SimulatedIsDatasheet,                         *)
 (*          fam : datasheet family by NAME (classification table of the    *)
 (*                harness, trusted): "and" "nand" "or" "nor" "xor" "xnor"  *)
 (*                "buf" "inv" "ao" "aoi" "oa" "oai" "mux2" "mux4" "ha" "fa" *)
@@ -78,6 +79,10 @@ Datasheet(k) ==
     [] R.fam = "ha" -> (IF k = R.outroles[1] THEN (Role(1) + Role(2)) % 2 ELSE Role(1) * Role(2))      \* outroles: sum, carry
     [] R.fam = "fa" -> (IF k = R.outroles[1] THEN (Role(1) + Role(2) + Role(3)) % 2 ELSE Maj(Role(1), Role(2), Role(3)))
 FunctionIsDatasheet == ~Checked \/ (LET o == CellOuts(I, In, 0) IN \A k \in 1..Len(o) : o[k] = Datasheet(k)) \/ Fail("FunctionIsDatasheet")
+\* ... and so does the REAL simulator on the implementation circuit as published (2-valued and 8-valued LogicSim over all input
+\* assignments; sim2 / sim8 [output pin][assignment + 1]; 2 = neither 0 nor 1; a one-element row = the simulator raised)
+SimOk(sim) == Len(sim) = Len(OutPorts(I)) /\ \A k \in 1..Len(sim) : Len(sim[k]) = 2 ^ NIn /\ sim[k][a + 1] = Datasheet(k)
+SimulatedIsDatasheet == ~Checked \/ NIn > 8 \/ (SimOk(R.sim2) /\ SimOk(R.sim8)) \/ Fail("SimulatedIsDatasheet")
 \* a cell classified into a combinational family has no state element and at least one output
 Combinational == (a > 0) \/ ~Checked \/ (Len(SeqNodes(I)) = 0 /\ Len(OutPorts(I)) >= 1) \/ Fail("Combinational")
 =============================================================================
